@@ -258,6 +258,26 @@ theorem boundaryAfterC_ok {s : State} (h : s.DomC) (asr : Bool) {c : Int} (hc : 
   · have hl : s.LiveC (s.next c) := (h.nextOk c hc).resolve_left e
     simp only [cellIdxC_ok hc.1, a1, if_neg e, cellIdxC_ok hl.1, bind, Except.bind, pure, Except.pure]
 
+theorem boundaryBeforeInC_ok {s : State} (h : s.DomC) (asr : Bool) {r c : Int} (hr : s.validRow r)
+    (hc : c = -1 ∨ (s.LiveC c ∧ s.row c ≠ -1)) :
+    s.boundaryBeforeInC asr r c = .ok (s.boundaryBeforeIn r c) := by
+  unfold boundaryBeforeInC boundaryBeforeIn
+  by_cases e : c = -1
+  · simp only [if_pos e, rowIdxC_ok hr, bind, Except.bind, pure, Except.pure]
+  · have hl := hc.resolve_left e
+    simp only [if_neg e]
+    exact boundaryBeforeC_ok h asr hl.1 hl.2
+
+theorem boundaryAfterInC_ok {s : State} (h : s.DomC) (asr : Bool) {r c : Int} (hr : s.validRow r)
+    (hc : c = -1 ∨ (s.LiveC c ∧ s.row c ≠ -1)) :
+    s.boundaryAfterInC asr r c = .ok (s.boundaryAfterIn r c) := by
+  unfold boundaryAfterInC boundaryAfterIn
+  by_cases e : c = -1
+  · simp only [if_pos e, rowIdxC_ok hr, bind, Except.bind, pure, Except.pure]
+  · have hl := hc.resolve_left e
+    simp only [if_neg e]
+    exact boundaryAfterC_ok h asr hl.1 hl.2
+
 /-- **`canPlace` never overflows** on the domain, for every abscissa `x` up to `INT_MAX - 2^23`
 (in particular for `|x| ≤ 2^23`) -/
 theorem canPlaceC_ok {s : State} (h : s.DomC) {c r p x : Int} (hc : s.LiveC c) (hr : s.validRow r)
